@@ -13,6 +13,10 @@
 (*                               are too far apart to align in 32 bits       *)
 (*                               (only ever a *result*, never an operand);   *)
 (*                               x is the term with the larger exponent      *)
+(*   [k |-> "inf", neg]          an IEEE infinity;  [k |-> "nan"]  IEEE NaN.  *)
+(*                               Never literals: they are num() of the       *)
+(*                               strings inf / infinity / nan (section 3.1)  *)
+(*                               and the results of arithmetic on those      *)
 (*   [k |-> "str", s]            a byte string (JqUtil bytes)                *)
 (*   [k |-> "bool", b]  [k |-> "null"]  [k |-> "unset"]                      *)
 (*   [k |-> "arr", len]  [k |-> "obj", len]   (operators see only the kind)  *)
@@ -68,9 +72,18 @@ NumOddD(sg, t) == NumByGcd(sg, t, Gcd(t[1], t[2]))                  \* t = <<n, 
 NumOddN(sg, t) == NumOddD(sg, StripD(t[1], t[2], t[3]))             \* n odd
 Num(n, d, e) == IF n = 0 THEN Zero ELSE NumOddN(IF n < 0 THEN -1 ELSE 1, StripN(Abs(n), d, e))
 I(i) == Num(i, 1, 0)
-IsZero(x) == x.n = 0
-IsNeg(x) == x.n < 0 \/ x.nz        \* the IEEE sign bit
-Neg(x) == IF x.n = 0 THEN [x EXCEPT !.nz = ~x.nz] ELSE [x EXCEPT !.n = -x.n]
+\* the non-finite doubles
+Inf(neg) == [k |-> "inf", neg |-> neg]
+PosInf == Inf(FALSE)
+NegInf == Inf(TRUE)
+NaN == [k |-> "nan"]
+IsFin(x) == x.k = "num"
+IsZero(x) == x.k = "num" /\ x.n = 0
+IsNeg(x) == CASE x.k = "inf" -> x.neg [] x.k = "nan" -> FALSE [] OTHER -> x.n < 0 \/ x.nz        \* the IEEE sign bit
+Neg(x) ==
+  CASE x.k = "inf" -> Inf(~x.neg)
+    [] x.k = "nan" -> NaN
+    [] OTHER -> IF x.n = 0 THEN [x EXCEPT !.nz = ~x.nz] ELSE [x EXCEPT !.n = -x.n]
 
 \* largest shift for which aligning two operands stays inside 32 bits; operands
 \* have |n|, d < 2^6 (checked for the universe by MC_Ops.UniverseOK)
@@ -79,31 +92,56 @@ MaxShift == 16
 AddAligned(x, y, e0) ==
   IF x.e - e0 > MaxShift \/ y.e - e0 > MaxShift THEN (IF x.e > y.e THEN [k |-> "sum", x |-> x, y |-> y] ELSE [k |-> "sum", x |-> y, y |-> x])
   ELSE Num(x.n * Pow(2, x.e - e0) * y.d + y.n * Pow(2, y.e - e0) * x.d, x.d * y.d, e0)
-Add(x, y) ==
+AddFin(x, y) ==
   IF IsZero(x) /\ IsZero(y) THEN (IF x.nz /\ y.nz THEN NegZero ELSE Zero)
   ELSE IF IsZero(x) THEN y
   ELSE IF IsZero(y) THEN x
   ELSE AddAligned(x, y, IF x.e < y.e THEN x.e ELSE y.e)
+\* IEEE: NaN is contagious; inf + (-inf) is NaN; otherwise an infinity absorbs
+Add(x, y) ==
+  IF x.k = "nan" \/ y.k = "nan" THEN NaN
+  ELSE IF x.k = "inf" THEN (IF y.k = "inf" /\ y.neg # x.neg THEN NaN ELSE x)
+  ELSE IF y.k = "inf" THEN y
+  ELSE AddFin(x, y)
 Sub(x, y) == Add(x, Neg(y))
-Mul(x, y) ==
+MulFin(x, y) ==
   IF IsZero(x) \/ IsZero(y) THEN (IF IsNeg(x) # IsNeg(y) THEN NegZero ELSE Zero)
   ELSE Num(x.n * y.n, x.d * y.d, x.e + y.e)
+\* IEEE: inf * 0 is NaN, otherwise inf * y is an infinity with the product's sign
+Mul(x, y) ==
+  IF x.k = "nan" \/ y.k = "nan" THEN NaN
+  ELSE IF x.k = "inf" \/ y.k = "inf" THEN (IF IsZero(x) \/ IsZero(y) THEN NaN ELSE Inf(IsNeg(x) # IsNeg(y)))
+  ELSE MulFin(x, y)
 \* y # 0
-Div(x, y) ==
+DivFin(x, y) ==
   IF IsZero(x) THEN (IF IsNeg(x) # IsNeg(y) THEN NegZero ELSE Zero)
   ELSE Num((IF y.n < 0 THEN -1 ELSE 1) * x.n * y.d, x.d * Abs(y.n), x.e - y.e)
+
+\* y # 0.  IEEE: inf / inf is NaN, inf / y an infinity, x / inf a zero, each with the quotient's sign
+Div(x, y) ==
+  IF x.k = "nan" \/ y.k = "nan" THEN NaN
+  ELSE IF x.k = "inf" THEN (IF y.k = "inf" THEN NaN ELSE Inf(IsNeg(x) # IsNeg(y)))
+  ELSE IF y.k = "inf" THEN (IF IsNeg(x) # IsNeg(y) THEN NegZero ELSE Zero)
+  ELSE DivFin(x, y)
 
 \* sign of a num or a sum (-1, 0, 1); in a sum the first term has the larger
 \* exponent and dominates (gap > MaxShift bits, mantissas below 2^6)
 SignOf(x) ==
   IF x.k = "sum" THEN (IF x.x.n < 0 THEN -1 ELSE 1)
+  ELSE IF x.k = "inf" THEN (IF x.neg THEN -1 ELSE 1)
   ELSE IF x.n < 0 THEN -1 ELSE IF x.n > 0 THEN 1 ELSE 0
-NumCmp(x, y) == SignOf(Sub(x, y))
-NumEq(x, y) == x.k = "num" /\ y.k = "num" /\ x.n = y.n /\ x.d = y.d /\ x.e = y.e   \* equal, ignoring the sign of zero
+\* NaN is not ordered: NumCmp is for operands that are not NaN
+Unordered(x, y) == x.k = "nan" \/ y.k = "nan"
+NumCmp(x, y) == IF x.k = "inf" /\ x = y THEN 0 ELSE SignOf(Sub(x, y))
+\* equal, ignoring the sign of zero (NaN equals nothing)
+NumEq(x, y) ==
+  IF x.k = "num" /\ y.k = "num" THEN x.n = y.n /\ x.d = y.d /\ x.e = y.e
+  ELSE x.k = "inf" /\ x = y
 
 \* truncation toward zero, as a num.  |x| >= 2^MaxShift has no fraction bits here.
 Trunc(x) ==
-  IF IsZero(x) THEN Zero
+  IF x.k \in {"inf", "nan"} THEN x
+  ELSE IF IsZero(x) THEN Zero
   ELSE IF x.d = 1 /\ x.e >= 0 THEN x
   ELSE IF x.e >= 0 THEN I((IF x.n < 0 THEN -1 ELSE 1) * ((Abs(x.n) * Pow(2, x.e)) \div x.d))
   ELSE IF -x.e > 24 THEN Zero
@@ -121,7 +159,7 @@ RemBy(x, y, em) ==                    \* em the smaller exponent; ex = x.e - em,
   ELSE x                              \* ex = 0 and |x| < 2^6 * 2^em < |y|
 Rem(x, y) == IF IsZero(x) THEN Zero ELSE RemBy(x, y, IF x.e < y.e THEN x.e ELSE y.e)
 \* |x| >= 2^63: outside the range of a 64-bit integer (x integer-valued)
-Beyond63(x) == ~IsZero(x) /\ x.e >= 58 /\ (x.e - 58 > 5 \/ Abs(x.n) * Pow(2, x.e - 58) >= 32)
+Beyond63(x) == IsFin(x) /\ ~IsZero(x) /\ x.e >= 58 /\ (x.e - 58 > 5 \/ Abs(x.n) * Pow(2, x.e - 58) >= 32)
 
 \* ----- decimal text of a dyadic number (d = 1), the `strconv 'f', -1` form.
 \* Little-endian digit sequences so that 2^53 and 5^20 need no big integers.
@@ -147,11 +185,15 @@ ExactText(x) ==
 LongNumTexts == {<<[n |-> 1, e |-> 70], Chars("1180591620717411300000")>>}
 AbsText(x, long) == IF x.n = 0 THEN <<"0">> ELSE IF long # {} THEN (CHOOSE p \in long : TRUE)[2] ELSE ExactText(x)
 NumText(x) ==
+  IF x.k = "inf" THEN (IF x.neg THEN <<"-", "I", "n", "f">> ELSE <<"+", "I", "n", "f">>)
+  ELSE IF x.k = "nan" THEN <<"N", "a", "N">>
+  ELSE
   (IF IsNeg(x) THEN <<"-">> ELSE <<>>) \o AbsText(x, {p \in LongNumTexts : p[1].n = Abs(x.n) /\ p[1].e = x.e /\ x.d = 1})
 
 \* ----- numeric strings: [sign] digits [. digits] [e [sign] digits], at least
-\* one mantissa digit, nothing else (no blanks).  Go's hex / inf / nan / _
-\* spellings need letters the model's alphabet does not have.
+\* one mantissa digit, nothing else (no blanks): ParseNum.  The non-finite spellings
+\* [sign] inf, [sign] infinity and nan (no sign), in any letter case: ParseSpecial.
+\* ParseNumX reads both.  Go's hex and _ spellings are outside the model.
 RECURSIVE SpanDigits(_, _)
 SpanDigits(s, i) == IF i <= Len(s) /\ s[i] \in Digit THEN SpanDigits(s, i + 1) ELSE i
 RECURSIVE DigitsValue(_)
@@ -181,6 +223,17 @@ PInteger(s, neg, i0, i1) == PPoint(s, neg, SubSeq(s, i0, i1 - 1), i1, i1 <= Len(
 PSign(s, neg, i0) == PInteger(s, neg, i0, SpanDigits(s, i0))
 ParseNum(s) == PSign(s, Len(s) >= 1 /\ s[1] = "-", IF Len(s) >= 1 /\ s[1] \in {"+", "-"} THEN 2 ELSE 1)
 
+\* s is the word lo = up written in any mixture of the two letter cases
+CaselessIs(s, lo, up) == Len(s) = Len(lo) /\ \A i \in 1..Len(s) : s[i] = lo[i] \/ s[i] = up[i]
+IsInfWord(b) == CaselessIs(b, Chars("inf"), Chars("INF")) \/ CaselessIs(b, Chars("infinity"), Chars("INFINITY"))
+SpecialAfterSign(s, signed) ==
+  IF IsInfWord(IF signed THEN Tail(s) ELSE s) THEN [ok |-> TRUE, v |-> Inf(signed /\ s[1] = "-")]
+  ELSE IF CaselessIs(s, Chars("nan"), Chars("NAN")) THEN [ok |-> TRUE, v |-> NaN]
+  ELSE NoNum
+ParseSpecial(s) == SpecialAfterSign(s, Len(s) >= 1 /\ s[1] \in {"+", "-"})
+NumOrSpecial(sp, s) == IF sp.ok THEN sp ELSE ParseNum(s)
+ParseNumX(s) == NumOrSpecial(ParseSpecial(s), s)
+
 \* ----------------------------------------------------------------- values
 VStr(s) == [k |-> "str", s |-> s]
 VBool(b) == [k |-> "bool", b |-> b]
@@ -196,24 +249,26 @@ Kinds == {"num", "str", "bool", "null", "unset", "arr", "obj", "regex", "fn"}
 \* ------------------------------------------------- 3.1 the three coercions
 Truthy(v) ==
   CASE v.k = "num" -> v.n # 0
+    [] v.k \in {"inf", "nan"} -> TRUE              \* (not zero)
     [] v.k = "str" -> v.s # <<>>
     [] v.k = "bool" -> v.b
     [] v.k \in {"arr", "obj", "fn"} -> TRUE
     [] OTHER -> FALSE                          \* null, unset, regex
 ParsedOrZero(p) == IF p.ok THEN p.v ELSE Zero
 NumOf(v) ==
-  CASE v.k = "num" -> v
+  CASE v.k \in {"num", "inf", "nan"} -> v
     [] v.k = "bool" -> IF v.b THEN I(1) ELSE Zero
-    [] v.k = "str" -> ParsedOrZero(ParseNum(v.s))
+    [] v.k = "str" -> ParsedOrZero(ParseNumX(v.s))
     [] OTHER -> Zero
 StrOf(v) ==
   CASE v.k = "str" -> v.s
-    [] v.k = "num" -> NumText(v)
+    [] v.k \in {"num", "inf", "nan"} -> NumText(v)
     [] OTHER -> <<>>
 
 Ok(v) == [ok |-> TRUE, v |-> v]
 Err == [ok |-> FALSE]                                           \* a runtime error
 Unfixed == [ok |-> TRUE, v |-> [k |-> "unfixed"]]               \* the statement leaves the cell open
+OkOpen == [ok |-> TRUE, v |-> [k |-> "okopen"]]                 \* a value (NOT a runtime error); which one is left open
 
 \* ------------------------------------------------------ 3.2 unary operators
 UnOps == {"!", "-", "+"}
@@ -228,7 +283,13 @@ IncDec(op, prefix, v) == IncDecNum(op, prefix, NumOf(v))
 
 \* ---------------------------------------------------------- 3.3 arithmetic
 ArithOps == {"+", "-", "*", "/", "%"}
-RemOf(tx, ty) == IF IsZero(ty) THEN Err ELSE Ok(Rem(tx, ty))
+\* tx, ty truncated.  An error exactly when the divisor is zero; a finite dividend is its own remainder
+\* by an infinite divisor; what the remainder of an infinite dividend, or by NaN, is stays open
+RemOf(tx, ty) ==
+  IF IsZero(ty) THEN Err
+  ELSE IF tx.k = "num" /\ ty.k = "num" THEN Ok(Rem(tx, ty))
+  ELSE IF tx.k = "num" /\ ty.k = "inf" THEN Ok(IF IsZero(tx) THEN Zero ELSE tx)
+  ELSE OkOpen
 ArithNum(op, x, y) ==
   CASE op = "+" -> Ok(Add(x, y))
     [] op = "-" -> Ok(Sub(x, y))
@@ -241,16 +302,26 @@ Arith(op, l, r) ==
 
 \* --------------------------------------------------------- 3.4 comparisons
 CmpOps == {"==", "!=", "<", "<=", ">", ">="}
-\* rows 2-7: a three-way result [ok, c] or a runtime error
-Cmp(l, r) ==
+\* rows 2-7: a three-way result [ok, c] or a runtime error; x, y the numeric readings of l, r (not NaN: see NanCmp)
+CmpBy(l, r, x, y) ==
   CASE l.k = "null" /\ r.k = "null" -> [ok |-> TRUE, c |-> 0]
     [] l.k = "null" /\ r.k # "null" -> [ok |-> TRUE, c |-> -1]
     [] l.k # "null" /\ r.k = "null" -> [ok |-> TRUE, c |-> 1]
     [] OTHER ->
        IF l.k \in {"arr", "obj"} \/ r.k \in {"arr", "obj"} THEN [ok |-> FALSE]
        ELSE IF l.k = "str" /\ r.k = "str" THEN [ok |-> TRUE, c |-> StrCmp(l.s, r.s)]
-       ELSE [ok |-> TRUE, c |-> NumCmp(NumOf(l), NumOf(r))]
+       ELSE [ok |-> TRUE, c |-> NumCmp(x, y)]
+CmpX(l, r) == CmpBy(l, r, NumOf(l), NumOf(r))
+\* The same on the FINITE fragment: numeric strings by the decimal grammar only.  For the modules that instantiate
+\* JqValue over universes they read with ParseNum (JqMatchLit); equal to CmpX wherever no operand is a non-finite
+\* spelling (law CmpAgree of MC_Ops)
+NumOfDec(v) == IF v.k = "str" THEN ParsedOrZero(ParseNum(v.s)) ELSE NumOf(v)
+Cmp(l, r) == CmpBy(l, r, NumOfDec(l), NumOfDec(r))
 CmpFixed(op, l, r) == ~(op \in {"!=", "<=", ">="} /\ (l.k = "unset" \/ r.k = "unset"))
+\* row 7 with NaN on one side: NaN is not ordered, the outcome is a boolean the statement does not fix
+NanCmp(l, r) ==
+  /\ {l.k, r.k} \cap {"null", "unset", "arr", "obj"} = {} /\ ~(l.k = "str" /\ r.k = "str")
+  /\ Unordered(NumOf(l), NumOf(r))
 CompareBy(op, c) ==
   IF ~c.ok THEN Err
   ELSE Ok(VBool(CASE op = "<" -> c.c < 0 [] op = "<=" -> c.c <= 0 [] op = ">" -> c.c > 0
@@ -260,7 +331,8 @@ Compare(op, l, r) ==
      (CASE op \in {"<", ">"} -> Ok(VBool(TRUE))
         [] op = "==" -> Ok(VBool(FALSE))
         [] OTHER -> Unfixed)
-  ELSE CompareBy(op, Cmp(l, r))
+  ELSE IF NanCmp(l, r) THEN OkOpen
+  ELSE CompareBy(op, CmpX(l, r))
 
 \* --------------------------------------------------------------- 3.5 logic
 LogicOps == {"&&", "||"}
@@ -272,7 +344,7 @@ Logic(op, l, r) ==
 
 \* ------------------------------------------------------------------ 3.6 is
 TypeName(v) ==
-  CASE v.k = "num" -> "number" [] v.k = "str" -> "string" [] v.k = "bool" -> "bool"
+  CASE v.k \in {"num", "inf", "nan"} -> "number" [] v.k = "str" -> "string" [] v.k = "bool" -> "bool"
     [] v.k = "arr" -> "array" [] v.k = "obj" -> "object" [] v.k = "regex" -> "regex"
     [] v.k = "fn" -> "function" [] v.k = "null" -> "null" [] v.k = "unset" -> "unknown"
 TypeNames == {"number", "string", "bool", "array", "object", "regex", "function", "null", "unknown"}
@@ -346,7 +418,7 @@ UsesText(op, other) == op \in {"~", "!~"} \/ (op = "+" /\ other.k = "str")
 \* may the result v of the sub-expression e be an operand of op (the other operand being `other`)?
 OperandOK(op, e, v, other) ==
   \/ e.t = "leaf"
-  \/ /\ v.k \notin {"sum", "unfixed"}
+  \/ /\ v.k \notin {"sum", "unfixed", "okopen"}
      /\ v.k = "num" => Abs(v.n) < 64 /\ v.d = 1 /\ (UsesText(op, other) => TextOK(v))
      \* (the range of the model's parser of numeric strings; a decimal fraction that is not a double would be rounded twice)
      /\ v.k = "str" => (Cardinality({i \in 1..Len(v.s) : v.s[i] \in Digit}) <= 8 /\ (\A i \in 1..Len(v.s) : v.s[i] \notin {"e", "E"})
